@@ -73,6 +73,14 @@ def r1(ctx) -> None:
         ctx.ob("C16-R1", f"{cls}/na-representation", rep is not None and rep in nav, sv, wr[0] if wr else sv.node,
                "missing values (None expression, NaN standard error) are written as a token the reader recognises as NA",
                construct=f"na_rep={rep!r} na_values={sorted(x for x in nav if x)}")
+        dt = kwarg(rd[0], "dtype") if rd else None
+        lab_str = isinstance(dt, ast.Dict) and any(lib.const_str(k) == "label" and norm(v) == "str" for k, v in zip(dt.keys, dt.values)) or (
+            dt is not None and norm(dt) == "str")
+        conv = kwarg(rd[0], "converters") if rd else None
+        lab_str = lab_str or (isinstance(conv, ast.Dict) and any(lib.const_str(k) == "label" and norm(v) == "str" for k, v in zip(conv.keys, conv.values)))
+        ctx.ob("C16-R1", f"{cls}/labels-read-as-text", bool(lab_str), ld, rd[0] if rd else ld.node,
+               "labels are text: the reader must pin the label column to str, otherwise pandas infers numbers for purely numeric labels "
+               "('1.10' -> 1.1, '01' -> 1)")
         idx = kwarg(wr[0], "index") if wr else None
         ctx.ob("C16-R1", f"{cls}/no-index-column", isinstance(idx, ast.Constant) and idx.value is False, sv, wr[0] if wr else sv.node,
                "the data-frame index is not written (it would come back as an unknown column)")
